@@ -49,7 +49,7 @@ type Engine struct {
 	allPkgs        map[string]*types.Package // by name and by path
 	loadS          float64
 	mutexKeys      map[string]bool
-	lockedLocals   map[string][]string          // locals.lock.json: function key -> local variable names in declaration order
+	lockedLocals   map[string][]string // locals.lock.json: function key -> local variable names in declaration order
 	aliasCache     map[*ssa.Function]map[string]string
 }
 
